@@ -271,5 +271,5 @@ impl Prop for AddSub {
 
 pub fn run(env: &mut Env) {
     let t = env.thorough();
-    env.run_random::<AddSub>(if t { 40_000_000 } else { 2_000_000 });
+    env.run_random::<AddSub>(if t { 40_000_000 } else { 6_000_000 });
 }
